@@ -52,8 +52,12 @@ theorem ex_tapeOk : TapeOk exTape := by
   · intro v hv; omega
   · intro v hv; omega
 
-theorem ex_getX : getItem exMode "x" exBatch = some (.x 4 4 exImgs) := by decide +kernel
-theorem ex_getY : getItem exMode "class" exBatch = some (.cls2 exRows) := by decide +kernel
+theorem ex_getX : getItem exMode "x" exBatch = some (.x 4 4 exImgs) := by
+  have h : exMode.idxOf "x" = 1 := by decide +kernel
+  simp [getItem, h, exBatch]
+theorem ex_getY : getItem exMode "class" exBatch = some (.cls2 exRows) := by
+  have h : exMode.idxOf "class" = 2 := by decide +kernel
+  simp [getItem, h, exBatch]
 theorem ex_totalP : 0 ≤ exCfg.totalP := by decide +kernel
 theorem ex_classMode : "class" ∈ exMode := by decide
 
@@ -138,47 +142,6 @@ example : ∃ out, collate exCfg exHalves exTape exMode exBatch = .ok out ∧
   obtain ⟨out, h⟩ := ex_ok
   exact ⟨out, h, (partner_follows_shuffle_mode h ex_getX).2.1 (by decide) rfl⟩
 
-/-- the image item of the output batch: same slot, same extents, one image per sample, each given by
-    `outImgs` -/
-theorem out_images {cfg halves tape mode batch out} (r : Run cfg halves tape mode batch out) :
-    getItem mode "x" out.batch = some (.x r.h r.w (outImgs cfg r.pl r.imgs)) := by
-  have hxlt : (mode.idxOf "x") < batch.length := by
-    have := r.getX
-    unfold getItem at this
-    by_cases hlt : mode.idxOf "x" < batch.length
-    · exact hlt
-    · rw [List.getElem?_eq_none (by omega)] at this; cases this
-  unfold getItem
-  rw [r.outB]
-  unfold finalBatch
-  cases hl : r.lab with
-  | none =>
-    simp only
-    rw [getElem?_setItem]
-    simp [List.getElem?_eq_getElem hxlt]
-  | some rb =>
-    obtain ⟨rows, binary⟩ := rb
-    simp only
-    rw [getElem?_setItem]
-    have hcls : "class" ∈ mode := by
-      have := r.getL
-      rw [hl] at this
-      unfold getLabels at this
-      by_cases hm : mode.contains "class" = true
-      · simpa using hm
-      · simp only [hm] at this
-        simp at this
-    have hne : mode.idxOf "x" ≠ mode.idxOf "class" := idxOf_ne r.hasX (by decide)
-    simp only [hne, if_false]
-    rw [getElem?_setItem]
-    simp [List.getElem?_eq_getElem hxlt]
-
-theorem outImgs_getD (cfg : Cfg) (pl : Plan) (imgs : List Img) (i : Nat) (hi : i < imgs.length) :
-    (outImgs cfg pl imgs).getD i zeroImg =
-      if flagAt cfg pl i then paste (boxAt cfg pl i) (imgs.getD i zeroImg) (imgs.getD (pl.idxX.getD i 0) zeroImg)
-      else mixImg (lamAt cfg pl i) (imgs.getD i zeroImg) (imgs.getD (pl.idxX.getD i 0) zeroImg) := by
-  simp [outImgs, List.getD_eq_getElem?_getD, List.getElem?_map, List.getElem?_range hi]
-
 /-- **Mixup image formula.** On every sample the context reports as mixed-up, every pixel of the emitted
     image is `w·x_i + (1-w)·x_p(i)` with `w` the weight the context reports and `p(i)` the partner of the
     shuffle mode. -/
@@ -262,36 +225,6 @@ example : ∃ out imgs', collate exCfg exHalves exTape exMode exBatch = .ok out 
   obtain ⟨out, h⟩ := ex_ok
   obtain ⟨imgs', h1, _, _⟩ := image_cutmix h ex_getX ex_tapeOk ex_totalP
   exact ⟨out, imgs', h, h1⟩
-
-/-- the label item of the output batch for a 2-d label tensor -/
-theorem out_labels_cls2 {cfg halves tape mode batch out rows} (r : Run cfg halves tape mode batch out)
-    (hm : "class" ∈ mode) (hy : getItem mode "class" batch = some (.cls2 rows)) :
-    getItem mode "class" out.batch = some (.cls2 (outRows cfg r.pl rows)) ∧ rows.length = r.imgs.length := by
-  have hl := getLabels_cls2 hm hy
-  have hl' := r.getL
-  rw [hl] at hl'
-  simp only [Except.ok.injEq] at hl'
-  have hlen := r.labLen rows false hl'.symm
-  refine ⟨?_, hlen⟩
-  have hylt : (mode.idxOf "class") < batch.length := by
-    unfold getItem at hy
-    by_cases hlt : mode.idxOf "class" < batch.length
-    · exact hlt
-    · rw [List.getElem?_eq_none (by omega)] at hy; cases hy
-  unfold getItem
-  rw [r.outB, ← hl']
-  unfold finalBatch
-  simp only [Bool.false_eq_true, if_false]
-  rw [getElem?_setItem]
-  simp only [if_true]
-  rw [getElem?_setItem]
-  have hne : mode.idxOf "class" ≠ mode.idxOf "x" := idxOf_ne hm (by decide)
-  simp [hne, List.getElem?_eq_getElem hylt]
-
-theorem outRows_getD (cfg : Cfg) (pl : Plan) (rows : List (List Rat)) (i : Nat) (hi : i < rows.length) :
-    (outRows cfg pl rows).getD i [] =
-      mixRow (lamAt cfg pl i) (rows.getD i []) (rows.getD (pl.idxY.getD i 0) []) := by
-  simp [outRows, List.getD_eq_getElem?_getD, List.getElem?_map, List.getElem?_range hi]
 
 /-- **Label formula, with the image's partner and weight.** Row `i` of the emitted label tensor is
     `w·y_i + (1-w)·y_p(i)` where `w = ctxWeight` and `p = partnerSpec … out.perm` are literally the weight
